@@ -67,6 +67,7 @@ def spread (acc : CallArgs) : V → Except Err CallArgs
     -- add_from_value_map: `self.named.insert(s.value().into(), v)` — overwrites silently
     .ok { acc with named := kv.foldl (fun m (k, a) => (omInsert (normName k) (.atom a) m).1) acc.named }
   | .list xs _ => .ok { acc with pos := acc.pos ++ xs.map V.atom }
+  | .blist xs _ => .ok { acc with pos := acc.pos ++ xs.map V.atom }
   | .atom .null => .ok acc
   | v => .ok { acc with pos := acc.pos ++ [v] }
 
